@@ -211,6 +211,7 @@ struct ShimCounters
     long long stmts_write = 0;    // of which not read-only (incl. BEGIN/COMMIT)
     long long steps = 0;
     long long inflate_calls = 0;
+    long long inflate_buf_errors = 0;   // inflate() answered Z_BUF_ERROR ("no progress possible", not fatal): cumulative
     bool fault_fired = false;
     bool step_budget_exceeded = false;
     bool inflate_budget_exceeded = false;
